@@ -97,6 +97,20 @@ Theorem C20x_norm : forall protected root,
 Proof. exact xml_norm. Qed.
 Print Assumptions C20x_norm.
 
+(** For the protected elements named by the property ([protected_names], Spec/XmlShape.v:
+    markup, literalLayout, objectName, attributeName, para); harness/c20.py checks on every run
+    that the stylesheet's ancestor list is this one (tie:xslt:protected-list) and runs the
+    statement oracle with this list. *)
+Theorem C20x_shipped : forall root,
+  flat_map (norm_xml protected_names) (norm_xml protected_names root) = norm_xml protected_names root /\
+  flat_map skeleton (norm_xml protected_names root) = skeleton root /\
+  flat_map (texts protected_names true false) (norm_xml protected_names root) =
+    map (replace_char 160 32) (texts protected_names true false root) /\
+  Forall (fun v => v <> [] /\ xnormal v) (flat_map (texts protected_names false false) (norm_xml protected_names root)) /\
+  Forall xnormal (flat_map attr_values (norm_xml protected_names root)).
+Proof. exact xml_shipped. Qed.
+Print Assumptions C20x_shipped.
+
 Example C20x_example :
   norm_xml [s "para"]
     (XE (s "a") [(s "x", [32; 49; 9; 160; 50; 32]%N)]
